@@ -107,7 +107,12 @@ def _agreement(ctx: Ctx):
         if rng.random() < 0.3:            # a boolean column: numerical 0/1 for every materializer
             df["flag"] = [bool((k * 7 + i) % 3 == 0) for k in range(len(df))]
             f += rng.choice([" + flag", " + flag:a", " + flag:A"])
-        rp = {"kind": "agreement", "formula": f, "frame": frame.describe(), "ensure_full_rank": efr, "na_action": na}
+        cx = {}
+        if rng.random() < 0.25:           # a factor supplied by the caller's context as a plain list / dict of lists / array (not a data column)
+            cx = {"wl": [float((k * 5 + i) % 7) - 2.0 for k in range(len(df))], "wd": {"u": [float(k % 3) for k in range(len(df))], "v": [1.5 * k for k in range(len(df))]},
+                  "wa": np.array([float((k * 3 + i) % 5) for k in range(len(df))])}
+            f += rng.choice([" + wl", " + wd", " + wl:a", " + wa:A", " + wl + wa", " + wl:A"])
+        rp = {"kind": "agreement", "formula": f, "frame": frame.describe(), "ensure_full_rank": efr, "na_action": na, "context": sorted(cx)}
         ctx.oracle_runs += 1
 
         def arr(m_, out):
@@ -117,18 +122,18 @@ def _agreement(ctx: Ctx):
         try:
             for out in ("pandas", "numpy", "sparse"):
                 routes = {
-                    "sugar": lambda: model_matrix(f, df, output=out, ensure_full_rank=efr, na_action=na),
-                    "formula": lambda: Formula(f).get_model_matrix(df, output=out, ensure_full_rank=efr, na_action=na),
-                    "spec": lambda: ModelSpec(formula=Formula(f), output=out, ensure_full_rank=efr, na_action=na).get_model_matrix(df),
-                    "spec+override": lambda: ModelSpec(formula=Formula(f)).get_model_matrix(df, output=out, ensure_full_rank=efr, na_action=na),
-                    "materializer": lambda: PandasMaterializer(df).get_model_matrix(f, output=out, ensure_full_rank=efr, na_action=na),
-                    "narwhals/pandas": lambda: NarwhalsMaterializer(df).get_model_matrix(f, output=out, ensure_full_rank=efr, na_action=na),
+                    "sugar": lambda: model_matrix(f, df, output=out, ensure_full_rank=efr, na_action=na, context=cx),
+                    "formula": lambda: Formula(f).get_model_matrix(df, output=out, ensure_full_rank=efr, na_action=na, context=cx),
+                    "spec": lambda: ModelSpec(formula=Formula(f), output=out, ensure_full_rank=efr, na_action=na).get_model_matrix(df, context=cx),
+                    "spec+override": lambda: ModelSpec(formula=Formula(f)).get_model_matrix(df, output=out, ensure_full_rank=efr, na_action=na, context=cx),
+                    "materializer": lambda: PandasMaterializer(df, context=cx).get_model_matrix(f, output=out, ensure_full_rank=efr, na_action=na),
+                    "narwhals/pandas": lambda: NarwhalsMaterializer(df, context=cx).get_model_matrix(f, output=out, ensure_full_rank=efr, na_action=na),
                 }
                 # the spec produced by a build is itself an entry point: same data, same result
-                routes["fitted-spec"] = lambda: model_matrix(f, df, output=out, ensure_full_rank=efr, na_action=na).model_spec.get_model_matrix(df)
-                routes["sugar(fitted-spec)"] = lambda: model_matrix(model_matrix(f, df, output=out, ensure_full_rank=efr, na_action=na).model_spec, df)
+                routes["fitted-spec"] = lambda: model_matrix(f, df, output=out, ensure_full_rank=efr, na_action=na, context=cx).model_spec.get_model_matrix(df, context=cx)
+                routes["sugar(fitted-spec)"] = lambda: model_matrix(model_matrix(f, df, output=out, ensure_full_rank=efr, na_action=na, context=cx).model_spec, df, context=cx)
                 if na != "ignore" or not df.isnull().any().any():
-                    routes["narwhals/arrow"] = lambda: NarwhalsMaterializer(pa.Table.from_pandas(df)).get_model_matrix(f, output=out, ensure_full_rank=efr, na_action=na)
+                    routes["narwhals/arrow"] = lambda: NarwhalsMaterializer(pa.Table.from_pandas(df), context=cx).get_model_matrix(f, output=out, ensure_full_rank=efr, na_action=na)
                 for name, fn in routes.items():
                     m_ = fn()
                     results[(out, name)] = (arr(m_, out), list(m_.model_spec.column_names))
